@@ -49,8 +49,10 @@ type wcase struct {
 	Chunk string  `json:"chunk"`
 }
 
-// channel numbers on the wire for video, video control, audio, audio control (deliberately not the identity)
-var chanCfg = []int{2, 3, 0, 1}
+// channel numbers on the wire for video, video control, audio, audio control: what a client may negotiate in SETUP
+// (interleaved=a-b). chanCfg is the one in force for the case being replayed.
+var chanCfgs = [][]int{{2, 3, 0, 1}, {0, 1, 2, 3}, {4, 5, 6, 7}, {1, 2, 8, 9}, {254, 255, 100, 101}}
+var chanCfg = chanCfgs[0]
 
 var urls = map[string]string{
 	"plain": "rtsp://cam.example/live/a",
@@ -327,6 +329,7 @@ func TestWire(t *testing.T) {
 	msgs := 0
 	for ci, c := range cases {
 		tid := ci + 1
+		chanCfg = chanCfgs[ci%len(chanCfgs)]
 		var data []byte
 		var wants []wantMsg
 		var bounds []int
